@@ -8,6 +8,8 @@ mod env;
 mod registry;
 mod sc_entropy;
 mod courier;
+mod sc_agg;
+mod sc_codec;
 mod sc_crypt;
 mod sc_pok;
 mod sc_sign;
